@@ -134,7 +134,7 @@ func writerTemplate(fn *Fn) []string {
 				if s, ok := strConst(info, call.Args[0]); ok {
 					toks = append(toks, "'"+s+"'")
 				} else {
-					toks = append(toks, types.ExprString(call.Args[0]))
+					toks = append(toks, accessorToken(fn, call.Args[0]))
 				}
 			}
 			return true
@@ -151,6 +151,51 @@ func writerTemplate(fn *Fn) []string {
 		out = append(out, toks[i])
 	}
 	return out
+}
+
+// accessorToken names a written value by the Address accessors it is computed
+// from (following local variable definitions), e.g. host := x.Host() → "Host",
+// parentName = parent.Name() with parent := x.Parent() → "Name+Parent".
+func accessorToken(fn *Fn, e ast.Expr) string {
+	info := fn.Info()
+	set := map[string]bool{}
+	seen := map[types.Object]bool{}
+	var visitExpr func(e ast.Node)
+	visitExpr = func(e ast.Node) {
+		ast.Inspect(e, func(n ast.Node) bool {
+			switch x := n.(type) {
+			case *ast.CallExpr:
+				if cal := callee(info, x); cal != nil {
+					if sig := cal.Type().(*types.Signature); sig.Recv() != nil && strings.HasSuffix(sig.Recv().Type().String(), "address.Address") {
+						set[cal.Name()] = true
+					}
+				}
+			case *ast.Ident:
+				obj := info.ObjectOf(x)
+				if v, ok := obj.(*types.Var); ok && !v.IsField() && !seen[obj] && obj.Parent() != nil && obj.Pkg() != nil && obj.Parent() != obj.Pkg().Scope() {
+					seen[obj] = true
+					ast.Inspect(fn.Decl.Body, func(m ast.Node) bool {
+						if as, ok := m.(*ast.AssignStmt); ok {
+							for i, l := range as.Lhs {
+								if id, ok := l.(*ast.Ident); ok && info.ObjectOf(id) == obj && i < len(as.Rhs) {
+									visitExpr(as.Rhs[i])
+								} else if ok && info.ObjectOf(id) == obj && len(as.Rhs) == 1 {
+									visitExpr(as.Rhs[0])
+								}
+							}
+						}
+						return true
+					})
+				}
+			}
+			return true
+		})
+	}
+	visitExpr(e)
+	if len(set) == 0 {
+		return types.ExprString(e)
+	}
+	return strings.Join(sortedKeys(set), "+")
 }
 
 func runC26(c *Ctx) {
@@ -248,11 +293,11 @@ func runC26(c *Ctx) {
 
 	c.Rule("template", func() {
 		got := strings.Join(writerTemplate(build), " ")
-		want := "'goakt' '://' system '@' host ':' portBytes '/' [ parentName '/' ] name"
+		want := "'goakt' '://' System '@' Host ':' Port '/' [ Name+Parent '/' ] Name"
 		c.Check(got == want, "buildString", "String() is scheme '://' system '@' host ':' port '/' [parent '/'] name", c.P.Pos(build.Decl.Pos()), "template is: "+got)
 		hp := c.Func("internal/address", "Address.HostPort")
 		got = strings.Join(writerTemplate(hp), " ")
-		c.Check(got == "host ':' portBytes", "HostPort", "HostPort() renders host ':' port exactly as String() embeds it", c.P.Pos(hp.Decl.Pos()), "template is: "+got)
+		c.Check(got == "Host ':' Port", "HostPort", "HostPort() renders host ':' port exactly as String() embeds it", c.P.Pos(hp.Decl.Pos()), "template is: "+got)
 		// FormatHostPort: host + ":" + strconv.Itoa(port)
 		fh := c.Func("internal/address", "FormatHostPort")
 		okF := false
